@@ -519,7 +519,9 @@ function runDigestSequence(ops) {
   const all = Buffer.concat(chunks);
   const sha = (b) => crypto.createHash("sha256").update(b).digest("hex");
   // the tap saw the stream only if it saw at least the text that was written
-  const tapComplete = tappable && all.length >= payload && (ops.length === 0 || all.length > 0);
+  // ... and, where the writer counts what it hashed, exactly that many bytes
+  const counted = typeof w.bytesHashed === "number" ? w.bytesHashed : null;
+  const tapComplete = tappable && counted != null && all.length === counted && all.length >= payload;
   const want = sha(all);
   const model = sha(modelBytes(ops));
   // encoding-independent: a digest must depend on every character of every string it is given
